@@ -70,6 +70,9 @@ def tasks(tier):
             for inv in range(1 << w):
                 for bdir in ("i", "o", "io"):
                     ts.append(("real-port", kind, w, inv, bdir))
+        for wrap in ("enable", "reset", "rename", "enable-of-rename"):
+            for bdir in ("i", "o", "io"):
+                ts.append(("real-port", kind, 2, 0b01, bdir, False, wrap))
     return ts
 
 
@@ -368,7 +371,7 @@ def check_io_use():
     return {"task": "io-use", "paths": 0, "solver_s": 0.0, "obligations": obs}
 
 
-def check_real_port(kind, w, inv, bdir, broken=False):
+def check_real_port(kind, w, inv, bdir, broken=False, wrap=None):
     """Buffer on a REAL port (SingleEndedPort / DifferentialPort over IOPorts), at netlist level (`build_netlist`, cell
     semantics of spec/nir_eval.py with the pad's external value symbolic) and at RTLIL level (`rtlil.convert`, $tribuf /
     connect under spec/rtlil_eval.py): for ALL o, oe and pad values, the pad is driven with o ^ mask under oe (the
@@ -381,8 +384,21 @@ def check_real_port(kind, w, inv, bdir, broken=False):
     from harness import rtlil_parse as RP
     from spec.nir_eval import NirEval
     from spec.rtlil_eval import RtlilEval
-    name = f"real-port[{kind},w={w},inv={inv:#b},{bdir}]"
+    name = f"real-port[{kind},w={w},inv={inv:#b},{bdir}" + (f",under-{wrap}" if wrap else "") + "]"
     invert = [bool((inv >> k) & 1) for k in range(w)]
+
+    def wrapped(buf):
+        # the buffer seen through a fragment transformer (the transformer copies the I/O buffer instance): same behaviour
+        from amaranth.hdl import EnableInserter, ResetInserter, DomainRenamer, Signal
+        if wrap == "enable":
+            return EnableInserter({"sync": Signal(name="en_ctl")})(buf)
+        if wrap == "reset":
+            return ResetInserter({"sync": Signal(name="rst_ctl")})(buf)
+        if wrap == "rename":
+            return DomainRenamer({"sync": "other"})(buf)
+        if wrap == "enable-of-rename":
+            return EnableInserter({"other": Signal(name="en_ctl")})(DomainRenamer({"sync": "other"})(buf))
+        return buf
 
     def build():
         if kind == "single":
@@ -392,9 +408,9 @@ def check_real_port(kind, w, inv, bdir, broken=False):
         buf = io.Buffer(bdir, port)
         return buf, port
     buf, port = build()
-    nl = build_netlist(Fragment.get(buf, None), _buf_ports(buf, bdir))
+    nl = build_netlist(Fragment.get(wrapped(buf), None), _buf_ports(buf, bdir))
     buf2, port2 = build()
-    mods = RP.parse(rtlil.convert(buf2, ports=_buf_ports(buf2, bdir), emit_src=False))
+    mods = RP.parse(rtlil.convert(wrapped(buf2), ports=_buf_ports(buf2, bdir), emit_src=False))
     top = nl.cells[0]
     iobs = [(i, c) for i, c in enumerate(nl.cells) if isinstance(c, _nir.IOBuffer)]
     has_o, has_i = bdir in ("o", "io"), bdir in ("i", "io")
